@@ -120,6 +120,25 @@ class Ctx:
         self.notes.append(text)
 
 
+def borrow(ctx, dst, fn, *args):
+    """run rule function(s) of another property and re-label what they record as rules of this property:
+    `Cxx.NAME` becomes `<dst>.NAME` (dst = this property's id).  A clause that another property owns is often a necessary
+    condition of this one too; the instances are then discharged (or violated) under both."""
+    n0 = len(ctx.insts)
+    floors0 = dict(ctx.floors)
+    fn(ctx, *args)
+    for i in ctx.insts[n0:]:
+        if not i.rule.startswith(dst + "."):
+            i.rule = dst + "." + i.rule.split(".", 1)[1]
+    new_floors = {k: v for k, v in ctx.floors.items() if k not in floors0 or floors0[k] != v}
+    for k, v in new_floors.items():
+        if not k.startswith(dst + "."):
+            del ctx.floors[k]
+            if k in floors0:
+                ctx.floors[k] = floors0[k]
+            ctx.floors[dst + "." + k.split(".", 1)[1]] = max(v, ctx.floors.get(dst + "." + k.split(".", 1)[1], 0))
+
+
 def load_known():
     p = os.path.join(VERIF, "known_findings.json")
     if not os.path.exists(p):
